@@ -69,7 +69,7 @@ CHECKS.update({
                 text="Call histories of next(), finalize(k) (k from -1,0,1,told-1,told,told+1,max_n,random) and observer reads on one object of any class: outcome (success/ValueError/RuntimeError), post-state and 'next action is EndForward' per the reference model; rejected calls must leave observers and the subsequent stream (vs. twin) unchanged."),
     "C15": dict(design_ref="DESIGN.md section 4 C15, 3.4", engine="hypothesis-stateful",
                 note="Trusted base: vlib/golden.py (fresh interpreter, forked pristine child per config) as the oracle; every history itself runs in a child forked from a pristine worker. Bounded histories (40/80 rules, <=6 live objects).",
-                technique="model-based stateful testing: Hypothesis RuleBasedStateMachine interleaving up to 6 live schedules, observer reads and memo-table pokes; sibling/variant configs and an exhaustive ordered sibling-pair sweep (A,B / B before A / A,B,A), each history in a pristine forked child; differential against the stream of the same config in a fresh interpreter; delta-debugging minimiser",
+                technique="model-based stateful testing: Hypothesis RuleBasedStateMachine interleaving up to 6 live schedules, observer reads and memo-table pokes; sibling/variant configs and an exhaustive ordered sibling-pair sweep (A,B / B before A / A,B,A), each history in a pristine forked child; differential against the stream of the same config in a fresh interpreter; the same configs in fresh interpreters with other PYTHONHASHSEED values (metamorphic: process-level hash order); delta-debugging minimiser",
                 text="Histories create/advance/observe/poke/finish over up to 6 live objects of all classes; every object's recorded stream must equal the stream the same config produces in a fresh interpreter (prefix-equal if stopped early)."),
 })
 
